@@ -53,6 +53,7 @@ scalar_roundtrip_harness!(c03_arg_u16, u16, 2, |a, b| a == b);
 scalar_roundtrip_harness!(c03_arg_i16, i16, 2, |a, b| a == b);
 scalar_roundtrip_harness!(c03_arg_u32, u32, 4, |a, b| a == b);
 scalar_roundtrip_harness!(c03_arg_i32, i32, 4, |a, b| a == b);
+// ALSO: C02
 scalar_roundtrip_harness!(c03_arg_u64, u64, 8, |a, b| a == b);
 scalar_roundtrip_harness!(c03_arg_f32, f32, 4, |a, b| a.to_bits() == b.to_bits());
 scalar_roundtrip_harness!(c03_arg_f64, f64, 8, |a, b| a.to_bits() == b.to_bits());
@@ -60,6 +61,7 @@ scalar_roundtrip_harness!(c03_arg_f64, f64, 8, |a, b| a.to_bits() == b.to_bits()
 /// The three operand newtypes (jump target, register, table index) and a 5-tuple mixing them - the
 /// widest instruction layout the macro instantiates.
 // FN: <Address as Argument>::encode, <Address as Argument>::decode, <RegisterOperand as Argument>::decode, <IndexOperand as Argument>::decode, tuple Argument impls
+// ALSO: C02
 #[kani::proof]
 #[kani::unwind(24)]
 fn c03_arg_operand_types_and_tuples() {
@@ -88,6 +90,7 @@ fn c03_arg_operand_types_and_tuples() {
 /// Variable-length operand (jump tables, register lists).
 // BOUND: vectors of 0, 1 or 2 elements (three harnesses), one prefix byte
 // FN: <ThinVec<T> as Argument>::encode, <ThinVec<T> as Argument>::decode
+// ALSO: C02
 #[kani::proof]
 #[kani::unwind(16)]
 fn c03_arg_thinvec_2() {
@@ -136,6 +139,7 @@ fn thinvec_roundtrip(n: usize) {
 /// `read` = little-endian value at the offset, new offset = offset + size, for every in-range offset
 /// of a symbolic buffer; Kani's pointer checks cover the `read_unaligned`.
 // FN: read, read_unchecked
+// ALSO: C02
 #[kani::proof]
 fn c03_read_in_range() {
     let buf: [u8; 12] = kani::any();
@@ -155,6 +159,7 @@ fn c03_read_in_range() {
 /// A truncated operand stream trips the internal-invariant assertion instead of reading out of bounds.
 // EXPECT-PANIC: buffer too small to read type T
 // FN: read
+// ALSO: C02
 #[kani::proof]
 #[kani::should_panic]
 fn c03_read_truncated_panics() {
